@@ -68,8 +68,8 @@ def _one_run(args: Tuple[int, str, int, str]) -> Dict[str, Any]:
                 # more points than slots (json.dump writes a plain .json token by token): the points on opens and
                 # on directory entries are few and all kept (at most half of the slots); the read / write calls
                 # get an evenly spaced sample that includes the first and the last one
-                rare = [pk for pk in pts if pk[0].get("type") in ("open", "fsop")][: n_slots // 2]
-                io = [pk for pk in pts if pk[0].get("type") not in ("open", "fsop")]
+                rare = [pk for pk in pts if pk[0].get("type") in ("open", "fsop", "alloc")][: n_slots // 2]
+                io = [pk for pk in pts if pk[0].get("type") not in ("open", "fsop", "alloc")]
                 room = n_slots - len(rare)
                 if len(io) > room > 1:
                     io = [io[j * (len(io) - 1) // (room - 1)] for j in range(room)]
